@@ -33,7 +33,7 @@ PROBES = ['zero_fit_record_reached_consumer', 'ineligible_line_skipped', 'short_
 
 def budgets(tier):
     if tier == 'quick':
-        return {'runs': 900, 'max_wall': 120, 'chunk': 8}
+        return {'runs': 2400, 'max_wall': 120, 'chunk': 10}
     return {'runs': 20000, 'max_wall': 1500, 'chunk': 10}
 
 
@@ -66,7 +66,10 @@ def generate(rng, tier, idx):
     channel = rng.choice(['path', 'list', 'list', 'obj'])
     for _ in range(rng.randint(0, 3)):
         steps.append({'op': rng.choice(pipe.CONSUMERS), 'sel': pipe.gen_selector(rng, w['n_models']),
-                      'criterion': rng.choice(['chi', 'cpd']), 'threshold': float('%.3g' % (10 ** rng.uniform(-1, 5)))})
+                      'criterion': rng.choice(['chi', 'cpd']), 'threshold': float('%.3g' % (10 ** rng.uniform(-1, 5))),
+                      # non-default options of the consumers (legal values; must not change what the channels agree on)
+                      'show_convolved': rng.random() < 0.5, 'plot_mode': rng.choice(['A', 'A', 'I']), 'plot_max': rng.choice([None, None, 1, 3]),
+                      'memmap': rng.random() < 0.7, 'additional': rng.random() < 0.3, 'header': rng.random() < 0.8})
     sc['channel'] = channel
     sc['steps'] = steps
     return sc
@@ -281,6 +284,10 @@ def _execute(sc, sim, out):
         out.probe('channel_' + channel)
         fbytes = env.real_open(outp, 'rb').read()
         for i, st in enumerate(steps):
+            st = dict(st)
+            st['show_convolved'] = bool(st.get('show_convolved')) and sc['output_convolved']   # needs stored predictions
+            if st.get('additional'):
+                st['additional_dict'] = {'ADDED': {nm: 1.5 + 0.25 * k for k, nm in enumerate(W.names)}}
             before = [canon_record(o, meta=True) for o in objs]
             ref = pipe.run_consumer(sim, st['op'], outp, st['sel'], 'ref', st)
             res = pipe.run_consumer(sim, st['op'], arg, st['sel'], 'chan', st)
